@@ -105,7 +105,7 @@ def parseP (typed wide : Bool) (nrules : Nat) : Nat → List String → Option (
     | ("lex", none) => un .lexeme
     | ("ign", none) => un .ignore
     | ("named", none) => un .named
-    | ("rec", none) => if typed then none else un (.conv 9)
+    | ("rec", none) => if typed then un id else un (.conv 9)    -- typed: fcppt::recursive<T> is printed as T
     | ("conv", some k) => match k.toNat? with
       | some k => if k < 3 ∧ !typed then un (.conv k) else none
       | none => none
@@ -113,7 +113,7 @@ def parseP (typed wide : Bool) (nrules : Nat) : Nat → List String → Option (
       | some k => if k < 3 ∧ !typed then un (.convIf k) else none
       | none => none
     | ("ref", some i) => match i.toNat? with
-      | some i => if i < nrules ∧ !typed then some (.ref i, ts) else none
+      | some i => if i < nrules then some (.ref i, ts) else none
       | none => none
     | ("con", some k) => match k.toNat? with
       | some k => if 20 ≤ k ∧ k < 30 then un (.map (.construct k)) else none
@@ -267,12 +267,25 @@ def collectDefs (ruleTy : Nat → Ty) : P → (Nat → Ty) → (Nat → Ty)
     | none => d'
   | _, d => d
 
-def mkEnv (p : P) : TEnv :=
-  let ruleTy : Nat → Ty := fun _ => .unit
-  { ruleTy := ruleTy, defs := collectDefs ruleTy p (fun _ => .unit) }
+/-- The environment of a typed grammar: a rule `con:k. …` has the declared type struct `k` (that is how a recursive result
+type is written in C++), the type of every other rule is computed from its body (two rounds, so that such a rule may refer
+to `con` rules and to rules computed in the first round).  This is glue, not trusted: `typedLine` checks `WT` by evaluation. -/
+def mkEnv (rules : List P) : TEnv :=
+  let named : Nat → Ty := fun i => match rules[i]? with
+    | some (.map (.construct k) _) => .named k
+    | _ => .unit
+  let defsOf (ruleTy : Nat → Ty) : Nat → Ty := rules.foldl (fun d r => collectDefs ruleTy r d) (fun _ => .unit)
+  let round (ruleTy : Nat → Ty) : Nat → Ty := fun i => match rules[i]? with
+    | some (.map (.construct k) _) => .named k
+    | some r => (typeOf { ruleTy := ruleTy, defs := defsOf ruleTy } r).getD .unit
+    | none => .unit
+  let ruleTy := round (round named)
+  { ruleTy := ruleTy, defs := defsOf ruleTy }
 
-def typedLine (g : G) (p : P) (sk : Sk) (inp : List Nat) : String :=
-  let E := mkEnv p
+def typedLine (rules : List P) (g : G) (p : P) (sk : Sk) (inp : List Nat) : String :=
+  let E := mkEnv rules
+  -- `WT`: every rule has its declared type
+  if !(List.range rules.length).all (fun i => typeOf E (rules.getD i .fail) == some (E.ruleTy i)) then "ill-typed" else
   match typeOf E p with
   | none => "ill-typed"
   | some τ =>
@@ -310,16 +323,15 @@ def enumLine (one : List Nat → String) (alpha : List Nat) (maxlen : Nat) : Str
     (if acc.other = 0 then "" else s!" other={acc.other}")
 
 /-- common front part of the ops: char type + entry point, skipper, grammar; the Bool of the result: stream entry point -/
-def setup (typed : Bool) (ce sk gr : String) : Option (Bool × Bool × Sk × G × P) :=
+def setup (typed : Bool) (ce sk gr : String) : Option (Bool × Bool × Sk × G × P × List P) :=
   match ce.toList with
   | [c, e] =>
-    if (c = 'c' ∨ c = 'w') ∧ (e = 'p' ∨ e = 'h' ∨ e = 'g' ∨ e = 's' ∨ e = 'r' ∨ e = 'q' ∨ e = 't') ∧ (typed → (e = 'p' ∨ e = 'h')) then
+    if (c = 'c' ∨ c = 'w') ∧ (e = 'p' ∨ e = 'h' ∨ e = 'g' ∨ e = 's' ∨ e = 'r' ∨ e = 'q' ∨ e = 't') ∧ (typed → (e = 'p' ∨ e = 'h' ∨ e = 'g')) then
       let wide := c = 'w'
       match parseSk wide sk, parseGrammar typed wide gr with
       | some sk, some (p :: rs) =>
         if (e = 'p' ∨ e = 'q' ∨ e = 't') ∧ sk ≠ .eps then none
-        else if typed ∧ !rs.isEmpty then none
-        else some (wide, e = 's' ∨ e = 'r' ∨ e = 'q' ∨ e = 't', sk, mkG (p :: rs), p)
+        else some (wide, e = 's' ∨ e = 'r' ∨ e = 'q' ∨ e = 't', sk, mkG (p :: rs), p, p :: rs)
       | _, _ => none
     else none
   | _ => none
@@ -329,9 +341,9 @@ def handle (toks : List String) : String :=
   | [op, ce, sk, gr, inp] =>
     if op = "run" ∨ op = "typed" then
       match setup (op = "typed") ce sk gr, inp.toList with
-      | some (wide, stream, sk, g, p), '=' :: cs =>
+      | some (wide, stream, sk, g, p, rules), '=' :: cs =>
         if okParam (String.ofList cs) then
-          (if op = "typed" then typedLine g p sk (cs.map (decodeChar wide))
+          (if op = "typed" then typedLine rules g p sk (cs.map (decodeChar wide))
            else runLine stream g p sk (cs.map (decodeChar wide)))
         else "bad-op"
       | _, _ => "bad-op"
@@ -339,9 +351,9 @@ def handle (toks : List String) : String :=
   | [op, ce, sk, gr, alpha, maxlen] =>
     if op = "enum" ∨ op = "tenum" then
       match setup (op = "tenum") ce sk gr, alpha.toList, maxlen.toNat? with
-      | some (wide, stream, sk, g, p), '=' :: cs, some n =>
+      | some (wide, stream, sk, g, p, rules), '=' :: cs, some n =>
         if okParam (String.ofList cs) ∧ n ≤ 10 ∧ 0 < cs.length ∧ cs.length ≤ 6 then
-          enumLine (if op = "tenum" then typedLine g p sk else runLine stream g p sk) (cs.map (decodeChar wide)) n
+          enumLine (if op = "tenum" then typedLine rules g p sk else runLine stream g p sk) (cs.map (decodeChar wide)) n
         else "bad-op"
       | _, _, _ => "bad-op"
     else "bad-op"
